@@ -38,6 +38,7 @@ VOLATILE = [i for i, (n, k) in enumerate(ATTRS) if k == 'int-volatile']
 # excluded from the optimistic check BY DECLARATION (intended semantics, not computed by Pony)
 NONOPT = [i for i, (n, k) in enumerate(ATTRS) if k in ('float', 'int-nonopt')]
 EXCLUDED = set(NONOPT) | set(VOLATILE)
+NULLABLE = ('int-null', 'int-lazy')
 OBJS = [1, 2]
 
 
@@ -203,7 +204,14 @@ class Ctx(object):
         args = list(args)
         o = args[len(set_cols)]
         sets = {IDX[c]: enc(KIND[c], v) for c, v in zip(set_cols, args)}
-        ev = {'stmt': 'UPDATE', 'o': o, 'set': sets, 'where': sorted(IDX[c] for c in where_cols[1:]), 'rowcount': cursor.rowcount}
+        # the optimistic criteria as generated: [attr, 'null'] for `col IS NULL`, [attr, encoded value] for `col = ?`
+        crit = []; rest = args[len(set_cols) + 1:]; k = 0
+        for col, op in re.findall(r'"(\w+)" (= \?|IS NULL)', m.group(2))[1:]:
+            if op == 'IS NULL': crit.append([IDX[col], 'null'])
+            else:
+                v = rest[k] if k < len(rest) else 'missing'; k += 1
+                crit.append([IDX[col], 'eq-none' if v is None else enc(KIND[col], v) if v != 'missing' else v])
+        ev = {'stmt': 'UPDATE', 'o': o, 'set': sets, 'where': sorted(IDX[c] for c in where_cols[1:]), 'crit': crit, 'rowcount': cursor.rowcount}
         self.events.append(ev)
         if cursor.rowcount == 0:
             self.suppress = True    # the diagnostic SELECT of find_updated_attributes belongs to the same step
@@ -404,6 +412,13 @@ def compare(case, trace, final_rows, mout):
         applied = [e['o'] for e in seg['events'] if e['stmt'] == 'UPDATE' and e['rowcount'] == 1]
         if (ms['upd'] is not None) != bool(applied) or (applied and applied != [ms['upd']]):
             return {'what': 'applied UPDATE', 'segment': i, 'thread': seg['t'], 'model': ms['upd'], 'real': applied}
+        upds = [e for e in seg['events'] if e['stmt'] == 'UPDATE']
+        if upds:
+            mc = ms.get('crit')
+            exp = None if mc is None else [[a, 'null' if (v == -1 and ATTRS[a][1] in NULLABLE) else ('missing' if v is None else v)] for a, v in mc['cols']]
+            if mc is None or mc['o'] != upds[0]['o'] or exp != upds[0]['crit']:
+                return {'what': 'WHERE clause of the optimistic UPDATE (column, IS NULL / = value)', 'segment': i, 'thread': seg['t'],
+                        'model': None if mc is None else {'o': mc['o'], 'crit': exp}, 'real': {'o': upds[0]['o'], 'crit': upds[0]['crit']}}
         if real_res == 'blocked': continue
         if [ms['lock'], ms['pre']] != seg['locks']:
             return {'what': 'lock holders', 'segment': i, 'thread': seg['t'], 'model': [ms['lock'], ms['pre']], 'real': seg['locks']}
@@ -423,6 +438,7 @@ def compare(case, trace, final_rows, mout):
 def gen_case(rng, uid):
     n = rng.choice([2, 2, 2, 3])
     hot = rng.sample(range(len(ATTRS)), rng.choice([1, 2, 2, 3]))
+    if rng.random() < 0.4 and not any(ATTRS[a][1] in NULLABLE for a in hot): hot.append(rng.choice([1, 6]))
     if rng.random() < 0.6 and not any(ATTRS[a][1] in ('int', 'int-null', 'float-opt', 'str', 'int-lazy') for a in hot):
         hot.append(rng.choice([0, 1, 4, 7]))
     objs = [1] if rng.random() < 0.6 else [1, 2]
@@ -449,7 +465,7 @@ def gen_case(rng, uid):
                 if r < 0.35: prog.append({'k': 'read', 'o': o, 'a': a})
                 elif r < 0.65:
                     v = rng.choice([next(counter), rng.choice([0, 1, 2]), rows[o][a]])
-                    if ATTRS[a][1] in ('int-null', 'int-lazy') and rng.random() < 0.2: v = -1
+                    if ATTRS[a][1] in NULLABLE and rng.random() < 0.4: v = -1
                     prog.append({'k': 'write', 'o': o, 'a': a, 'v': v})
                 elif r < 0.73: prog.append({'k': 'flush'})
                 elif r < 0.80: prog.append({'k': 'commit'})
@@ -526,6 +542,55 @@ def followups(case):
             progs.append(new)
         out.append(dict(case, progs=progs, picks=[t for t in case['picks'] for _ in range(2)]))
     return out
+
+
+def shape_cases(rng, limit, prime_null):
+    """statement caches keyed by shape (`_update_sql_cache_`, `_find_sql_cache_`, `_load_sql_cache_`, lazy_sql_cache): sessions
+    IN SEQUENCE on a fresh Database whose first statement of every (updated columns, read columns) shape sees the nullable
+    attribute as NULL (prime_null) or as a value; then the opposite shape under interleavings with a concurrent writer that
+    sets the attribute to NULL / to a value"""
+    def G(o=1): return {'k': 'get', 'o': o, 'fu': False}
+    C = {'k': 'close'}
+    def rd(a): return {'k': 'read', 'o': 1, 'a': a}
+    def wr(a, v): return {'k': 'write', 'o': 1, 'a': a, 'v': v}
+    base = [1, 1, 1, 1, 1, 1, 1, 1]
+    def rows(**kw):
+        r = list(base)
+        for k, v in kw.items(): r[IDX[k]] = v
+        return {1: r, 2: [2, -1, 2, 2, 2, 2, -1, 2]}
+    cases = []
+    first, second = (-1, 7) if prime_null else (7, -1)
+    combos = [([x], W) for x in (1, 6) for W in ([0], [7], [0, 7])] + [([1, 6], [0]), ([1, 6], [3, 4])]
+    # search criteria and loads of both shapes, one session after the other
+    for x in (1, 6):
+        n = NAMES[x]
+        seq = []
+        for v in (first, second, first):
+            seq += [{'k': 'find', 'o': 1, 'a': x, 'v': v}, C, {'k': 'find', 'o': 2, 'a': x, 'v': v}, C]
+        seq += [G(), rd(x), {'k': 'fetch', 'o': 1, 'as': [x]}, {'k': 'fetch', 'o': 1, 'as': [0, x]}, rd(x), C]
+        cases.append({'sessOpt': [True], 'rows': rows(**{n: first}), 'progs': [seq], 'picks': []})
+        cases.append({'sessOpt': [True], 'rows': rows(**{n: second}), 'progs': [seq], 'picks': []})
+    for xs, W in combos:
+        # 1. prime: conflict-free sessions in sequence; every read attribute has the FIRST shape
+        kw = {NAMES[x]: first for x in xs}
+        prog = [G()] + [rd(x) for x in xs] + [wr(w, 20 + w) for w in W] + [C]
+        cases.append({'sessOpt': [True], 'rows': rows(**kw), 'progs': [prog + prog], 'picks': []})
+        # 2. the opposite shape for the first read attribute, with and without a concurrent writer of that attribute
+        x = xs[0]
+        kw2 = dict(kw); kw2[NAMES[x]] = second
+        A = [G()] + [rd(y) for y in xs] + [wr(w, 30 + w) for w in W] + [C]
+        cases.append({'sessOpt': [True], 'rows': rows(**kw2), 'progs': [A], 'picks': []})
+        for newv in (first, 9 if second == -1 else -1 if first != -1 else 9):
+            B = [G(), wr(x, newv), C]
+            la, lb = len(A), len(B)
+            inter = list(itertools.combinations(range(la + lb), la))
+            critical = tuple(range(1 + len(xs))) + tuple(range(1 + len(xs) + lb, la + lb))   # A reads, B runs completely, A writes and leaves
+            if len(inter) > limit: inter = [critical] + rng.sample(inter, limit - 1)
+            for pos in inter:
+                picks = [101] * (la + lb)
+                for q in pos: picks[q] = 100
+                cases.append({'sessOpt': [True, True], 'rows': rows(**kw2), 'progs': [A, B], 'picks': picks})
+    return cases
 
 
 def canon_case(case):
@@ -625,6 +690,10 @@ def run(ctx, extra_cases=()):
             for f in sorted(os.listdir(corpus)):
                 if f.endswith('.json'): cs.append(load_case(json.load(open(os.path.join(corpus, f)))))
             run_cases(ctx, env, cs, 'corpus')
+        for prime_null in (True, False):            # fresh Database each: the per-entity statement caches start empty
+            env2 = Env()
+            try: run_cases(ctx, env2, shape_cases(ctx.rng, ctx.scale(6, 40), prime_null), 'null-shape:primed-' + ('null' if prime_null else 'value'))
+            finally: env2.close()
         run_cases(ctx, env, template_cases(ctx.rng, ctx.scale(12, 80)), 'template')
         n = ctx.scale(400, 8000)
         for chunk in range(0, n, 500):
